@@ -69,6 +69,6 @@ rc=0
 for V in "$@"; do
   build_variant "$V" || rc=1
 done
-# keep the cache small: drop trees other than the current one that are older than a day
+# keep the cache small: drop trees other than the current one that are older than three hours
 find "$CACHE" -mindepth 1 -maxdepth 1 -type d ! -name "$H" -mmin +180 -exec rm -rf {} + 2>/dev/null || true
 exit $rc
